@@ -151,3 +151,39 @@ pub fn tree_dump<T>(router: &Router<T>) -> String {
     dump_node(&mut out, router.verif_root(), 0);
     out
 }
+
+fn data_children<T, S: NodeState>(out: &mut String, nodes: &Nodes<T, S>) {
+    for child in nodes {
+        data_node(out, child);
+    }
+}
+
+fn data_node<T, S: NodeState>(out: &mut String, node: &Node<T, S>) {
+    if let Some(data) = &node.data {
+        let _ = writeln!(
+            out,
+            "{} {} {} {}",
+            data.depth(),
+            data.length(),
+            hex(data.template().as_bytes()),
+            data.expanded()
+                .map_or_else(|| "~".to_owned(), |expanded| hex(expanded.as_bytes())),
+        );
+    }
+
+    data_children(out, &node.static_children);
+    data_children(out, &node.dynamic_constrained_children);
+    data_children(out, &node.dynamic_children);
+    data_children(out, &node.wildcard_constrained_children);
+    data_children(out, &node.wildcard_children);
+    data_children(out, &node.end_wildcard_constrained_children);
+    data_children(out, &node.end_wildcard_children);
+}
+
+/// What is stored with every routable node, one line per node that holds data, in the order of [`tree_dump`]:
+/// `depth length template expanded` (the two rank fields, the texts hex encoded, `~` for no expansion).
+pub fn data_dump<T>(router: &Router<T>) -> String {
+    let mut out = String::new();
+    data_node(&mut out, router.verif_root());
+    out
+}
